@@ -647,6 +647,9 @@ def run_case(case):
         out["impl"] = ["timeout"]
     # ---- (O)
     legal = tor[0] == "ok" and not wrong_dest
+    if case["cont"] == "lazy" and not legal:
+        out["restricted"] = True        # lazy sub-domain: only arguments torch accepts are judged
+        return out
     if legal and restriction(case) is not None:
         # torch accepts, tensordict's documented contract does not cover this spelling: nothing to compare
         out["restricted"] = True
@@ -735,6 +738,8 @@ def restriction(case):
     def nd(d, m=None):
         m = n if m is None else m
         return d + m if d < 0 else d
+    if case["cont"] == "lazy" and op == "permute" and len(a["dims"]) != n:
+        return "lazy:prefix-permutation"   # the prefix-permutation extension is TensorDict's only
     return RESTRICTIONS.get(op, lambda *_: None)(case, a, bs, n, nd)
 
 
@@ -765,7 +770,10 @@ def signature(case, fclass):
             pat = f(case, a, bs, n, nd, fclass) or "other"
         except Exception:  # noqa: BLE001
             pat = "other"
-    return {"call": op, "cont": case["cont"], "fail": fclass, "pattern": pat}
+    sig = {"call": op, "cont": case["cont"], "fail": fclass, "pattern": pat}
+    if op in MULTI_IN:
+        sig["out"] = (case.get("out") or "none").split("-")[0]
+    return sig
 
 
 PATTERN_OF = {}
@@ -1029,21 +1037,29 @@ def gen_multi(op, bs, rng, cap):
 
 
 ALL_BS = all_batch_shapes()
-LAZY_WEIGHT = 0
+LAZY_WEIGHT = 3
 UNARY_OPS = ("permute", "transpose", "squeeze", "unsqueeze", "expand", "view", "reshape", "flatten", "unflatten", "repeat",
              "repeat_interleave", "unbind", "split", "chunk", "gather", "masked_select")
 
 
-def config_for(rng, bs, op):
-    """container / nesting / names / lock configuration of a case"""
+LAZY_OPS = ("chunk", "expand", "flatten", "masked_select", "reshape", "squeeze", "unsqueeze", "unbind", "stack", "cat",
+            "permute", "gather", "transpose")
+
+
+def config_for(rng, bs, op, shapes=None):
+    """container / nesting / names / lock configuration of a case.
+    Lazy stacks take part in a sub-domain only: batch sizes over {2, 3} (a lazy stack degenerates on size-0/1 dims),
+    unnamed, the operations of LAZY_OPS, and (run_case) arguments torch accepts; the rest of the lazy-stack
+    behaviour belongs to C08 (lazy == dense) and C01 (names)."""
     n = len(bs)
     cont = rng.choice(["td"] * 6 + ["tc"] * 2 + ["lazy"] * LAZY_WEIGHT)
-    if cont == "lazy" and (n == 0):
+    if cont == "lazy" and (n == 0 or op not in LAZY_OPS
+                           or not all(all(x in (2, 3) for x in s_) for s_ in (shapes or [bs]))):
         cont = "td"
     pat = rng.choice(["flat", "flat", "nest0", "nest1", "nest1", "empty", "wide", "widenest"])
     if cont == "tc" and pat in ("empty",):
         pat = "flat"
-    c = {"cont": cont, "pat": pat, "names": rng.choice(NAMES_MODES), "locked": rng.random() < 0.3}
+    c = {"cont": cont, "pat": pat, "names": rng.choice(NAMES_MODES) if cont != "lazy" else "none", "locked": rng.random() < 0.3}
     if cont == "tc" and op not in ("stack", "cat", "split"):
         c["nofn"] = True   # function spellings on a tensorclass only for the overrides the property names
     if cont == "lazy":
@@ -1065,7 +1081,7 @@ def gen_cases(rng, quick, budget):
         for bs in ALL_BS:
             if op in MULTI_IN:
                 for m in gen_multi(op, bs, rng, cap):
-                    cfg = config_for(rng, bs, op)
+                    cfg = config_for(rng, bs, op, m["shapes"])
                     case = dict(cfg, op=op, bs=list(bs), **m)
                     if case["out"] is not None:
                         case["out_lazy_dim"] = rng.randrange(4)
@@ -1306,6 +1322,8 @@ def _p_stack(case, a, bs, n, nd, f):
 
 @pattern("cat")
 def _p_cat(case, a, bs, n, nd, f):
+    if case["cont"] == "lazy" and (case.get("out") or "").startswith("lazy") and f in ("entry-value", "entry-shape", "rejects-legal", "batch-size"):
+        return "lazy-operands,out=lazy"
     if f == "accepts-illegal":
         if a["dim"] < -n:
             return "dim<-rank"
@@ -1335,7 +1353,23 @@ def _p_repeat(case, a, bs, n, nd, f):
     return _p_leafless_only(case, a, bs, n, nd, f)
 
 
-for _op in ("masked_select", "transpose", "unsqueeze", "unbind"):
+@pattern("transpose")
+def _p_transpose(case, a, bs, n, nd, f):
+    if case["cont"] == "lazy" and n:
+        i, j = sorted((nd(a["d0"]), nd(a["d1"])))
+        if case["lazy_dim"] in (i, j) and j - i >= 2 and f in ("batch-size", "entry-value", "entry-shape", "rejects-legal"):
+            return "lazy:stack-dim-involved,distance>=2"
+    return _p_leafless_only(case, a, bs, n, nd, f)
+
+
+@pattern("masked_select")
+def _p_masked(case, a, bs, n, nd, f):
+    if case["cont"] == "lazy" and f == "rejects-legal" and not a["true"] and case["pat"] in ("nest0", "nest1", "widenest"):
+        return "lazy:nested-entry,mask-all-false"
+    return _p_leafless_only(case, a, bs, n, nd, f)
+
+
+for _op in ("unsqueeze", "unbind"):
     PATTERN_OF[_op] = _p_leafless_only
 
 
@@ -1520,6 +1554,7 @@ def main(R):
             model_idx.append(i)
     model_res = R.model(model_lines, shards=12) if model_lines else []
     spec_bad = 0
+    pending = []
     for i, (c, r) in enumerate(zip(cases, results)):
         op = c["op"]
         key = json.dumps(c, sort_keys=True)
@@ -1545,13 +1580,18 @@ def main(R):
                 R.count("spec-mismatch:" + op)
                 if R.hist["spec-mismatch:" + op] <= 6:
                     print(f"SPEC-MISMATCH Spec/C02_TorchShape {spec_lines[i]}: torch {want} spec {got}", file=sys.stderr)
-        # (O)
+        # (O) collected, reported smallest case first (a cheap stand-in for shrinking: the replay written for a new
+        # failure is the simplest generated case that shows it)
         for (fclass, detail) in r["fails"]:
-            sig = signature(c, fclass)
-            R.count("oracle-failure:" + fclass)
-            R.oracle_fail("shape-op:" + fclass, c, {"what": detail, "torch": r["tor"], "tensordict": r["impl"]
-                          if r["impl"][0] != "ok" else "ok"}, sig)
+            pending.append((complexity(c), i, fclass, detail))
         R.traces += 1
+    pending.sort(key=lambda t: (t[0], t[1]))
+    for (_, i, fclass, detail) in pending:
+        c, r = cases[i], results[i]
+        sig = signature(c, fclass)
+        R.count("oracle-failure:" + fclass)
+        R.oracle_fail("shape-op:" + fclass, c, {"what": detail, "torch": r["tor"], "tensordict": r["impl"]
+                      if r["impl"][0] != "ok" else "ok"}, sig)
     # (M)
     for j, i in enumerate(model_idx):
         c, r = cases[i], results[i]
@@ -1562,6 +1602,12 @@ def main(R):
             R.mismatch("td-" + c["op"], c, io, mo)
     if spec_bad:
         raise RuntimeError(f"{spec_bad} SPEC-MISMATCH lines: Spec/C02_TorchShape disagrees with torch (machinery bug)")
+
+
+def complexity(c):
+    shapes = c.get("shapes") or [c["bs"]]
+    return (len(shapes[0]), sum(sum(s) for s in shapes), len(shapes), {"flat": 0, "wide": 1, "empty": 1, "nest0": 2, "widenest": 3,
+            "nest1": 4}[c["pat"]], c["cont"] != "td", c["names"] != "none", bool(c.get("locked")), len(json.dumps(c["args"])))
 
 
 def impl_canon(impl):
